@@ -436,34 +436,48 @@ def gen_laws(rng: random.Random, tier: str):
         d = rng.choice([2, 3])
         gs = [gen.derive(rng, gen.grid_spec(rng, d, min_size=2)) for _ in range(3)]
         two = rng.random() < 0.5
-        yield {"grids": gs, "two": two, "x": gen.points(rng, d, 1, -1.2, 1.2)[0], "v": gen.points(rng, d, 1, -0.5, 0.5)[0]}
+        # related: the second and third grid cover the SAME world domain as the first (another size / the other flag) — the
+        # pairs for which a "same domain, nothing to do" shortcut would be tempting
+        yield {"grids": gs, "two": two, "x": gen.points(rng, d, 1, -1.2, 1.2)[0], "v": gen.points(rng, d, 1, -0.5, 0.5)[0],
+               "related": two and rng.random() < 0.4, "rs": [rng.randint(2, 9) for _ in range(2 * d)]}
 
 
 def check_laws(c):
     g0, g1, g2 = [gen.make_grid(s) for s in c["grids"]]
     if not c["two"]:
         g1 = g2 = g0
+    elif c.get("related"):
+        d_ = g0.ndim
+        g1 = g0.resize(c["rs"][:d_])
+        g2 = g0.resize(c["rs"][d_:])
     x0 = torch.tensor(c["x"], dtype=torch.float64)
     v0 = torch.tensor(c["v"], dtype=torch.float64)
+    # resized grids recompute spacing and origin in float32: a world offset |w| then carries eps32·|w| of absolute error,
+    # i.e. eps32·|w| / spacing index units (the same conditioning term as in the `coords` oracle)
+    cond = 0.0
+    if c.get("related"):
+        cond = 32 * 1.2e-7 * max(float(g.center().abs().max()) for g in (g0, g1, g2)) / \
+            min(float(g.spacing().min()) for g in (g0, g1, g2))
+    tolf = lambda *a_: _tol(*a_) + cond   # noqa: E731
     for a, b, cc in itertools.product(AX, AX, AX):
         A, B, C = Axes(a), Axes(b), Axes(cc)
         # a point given w.r.t. (g0, A): start from cube coordinates to stay inside sensible ranges
         xa = g0.transform_points(x0, Axes.CUBE, A, decimals=None)
         xb = g0.transform_points(xa, A, B, to_grid=g1, decimals=None)
         back = g1.transform_points(xb, B, A, to_grid=g0, decimals=None)
-        if (back - xa).abs().max() > _tol(xa.abs().max(), xb.abs().max()):
+        if (back - xa).abs().max() > tolf(xa.abs().max(), xb.abs().max()):
             return (f"C01:roundtrip:{a}->{b}" + (":two-grids" if c["two"] else ""),
                     f"{a}->{b}->{a} maps {xa.tolist()} to {back.tolist()}")
         xc1 = g1.transform_points(xb, B, C, to_grid=g2, decimals=None)
         xc2 = g0.transform_points(xa, A, C, to_grid=g2, decimals=None)
-        if (xc1 - xc2).abs().max() > _tol(xa.abs().max(), xb.abs().max(), xc2.abs().max()):
+        if (xc1 - xc2).abs().max() > tolf(xa.abs().max(), xb.abs().max(), xc2.abs().max()):
             return (f"C01:compose:{a}->{b}->{cc}" + (":two-grids" if c["two"] else ""),
                     f"{a}->{b}->{cc} gives {xc1.tolist()} but {a}->{cc} gives {xc2.tolist()}")
         if cc == AX[0]:
             va = g0.transform_vectors(v0, Axes.CUBE, A)
             vb = g0.transform_vectors(va, A, B, to_grid=g1)
             lin = g0.transform_points(xa + va, A, B, to_grid=g1, decimals=None) - xb
-            if (vb - lin).abs().max() > _tol(xa.abs().max(), xb.abs().max(), vb.abs().max()):
+            if (vb - lin).abs().max() > tolf(xa.abs().max(), xb.abs().max(), vb.abs().max()):
                 return (f"C01:vectors:{a}->{b}" + (":two-grids" if c["two"] else ""),
                         f"transform_vectors gives {vb.tolist()} but T(x+v)-T(x) = {lin.tolist()}")
     return None
